@@ -78,3 +78,55 @@ class ClassGen:
         return " ".join(("pack",) + self.pack_args)
     def unpack_op(self, b):
         return " ".join(("unpack", hexb(b)) + self.unpack_args)
+
+# Container protocol (ops `len`, `getitem <int>` of the line protocol): the classes whose model has them.
+#   class -> (has __len__, has __getitem__, name of the list-valued field whose elements `getitem` returns)
+# `len` of iNetX / IENA / iNET packs the object (and raises what pack raises); PCMDataPacket has no __len__
+# (a TypeError, exercised by directed lines of families/container.py only, because an error ends a history).
+CONTAINER = {
+    "iNetX": (True, False, None), "IENA": (True, False, None), "iNET": (True, False, None),
+    "IENAM": (True, True, "parameters"), "IENAQ": (True, True, "parameters"),
+    "IENAD": (True, True, "parameters"), "IENAN": (True, True, "parameters"),
+    "NPD": (True, True, "segments"),
+    "ParserAlignedBlock": (True, False, None), "ParserAlignedPacket": (True, True, "parserblocks"),
+    "PcapRecord": (True, False, None),
+    "ARINC429DataPacket": (True, True, "arincwords"), "MILSTD1553DataPacket": (True, True, "messages"),
+    "UARTDataPacket": (True, True, "uartwords"), "PCMDataPacket": (False, True, "minor_frames"),
+    "TimeDataFormat1": (True, False, None), "TimeDataFormat2": (True, False, None),
+    "NAL": (True, False, None), "MPEGTS": (True, True, "blocks"),
+}
+
+def list_count(text):
+    """number of top-level elements of a canonical list text `[a;b;…]`"""
+    if not (text.startswith("[") and text.endswith("]")) or len(text) == 2:
+        return 0
+    depth, n = 0, 1
+    for ch in text[1:-1]:
+        if ch in "[{":
+            depth += 1
+        elif ch in "]}":
+            depth -= 1
+        elif ch == ";" and depth == 0:
+            n += 1
+    return n
+
+def index_candidates(n):
+    """the indices the container checks use for a container believed to hold n elements"""
+    return [0, 1, -1, n - 1, n, n + 1, -n - 1]
+
+def container_op(rng, cls, fields, p_out=0.25):
+    """one `len` / `getitem i` op for a class of CONTAINER (None for other classes).  `fields` is the sample the
+    history is built around: its element count steers the indices; out-of-range candidates (which end the
+    specified part of a history: IndexError) are drawn with probability p_out."""
+    ent = CONTAINER.get(cls)
+    if ent is None:
+        return None
+    has_len, has_get, fld = ent
+    if has_get and (not has_len or rng.random() < 0.6):
+        n = list_count(fields.get(fld, "[]")) if fld else 0
+        cands = index_candidates(n)
+        inside = [i for i in cands if -n <= i < n]
+        if inside and rng.random() >= p_out:
+            return "getitem %d" % rng.choice(inside)
+        return "getitem %d" % rng.choice(cands)
+    return "len" if has_len else None
